@@ -8,6 +8,8 @@ Open Scope N_scope.
    - is the rendering of shebang + helper definitions + code,
    - and passes the syntax check: if/elif/else/fi, while/done and function braces are properly nested and
      every then-part, else-part, loop body and function body contains at least one command. *)
+From Verif Require Import Facts.C16Facts.
+
 Theorem C16_bash_well_formed : forall body script st,
   emit_bash body = TOk script st -> emits_all body = true ->
   well_formed (b_start st ++ b_code st) = true /\ script = render_script (b_start st ++ b_code st)
@@ -19,13 +21,13 @@ Print Assumptions C16_bash_well_formed.
 Theorem C16_expression_lines : forall e used s vs s',
   t_expr bash_conv e used s = TOk vs s' ->
   exists ls, ext s s' ls /\ forallb is_simple ls = true /\ call_lines ls = calls_expr e.
-Proof. intros e used s vs s' H. exact (t_expr_ok e used s vs s' H). Qed.
+Proof. exact C16_expression_lines_proof. Qed.
 Print Assumptions C16_expression_lines.
 
 Theorem C16_statement_block : forall st s s',
   t_stmt bash_conv st s = TOk tt s' -> emits st = true ->
   exists ls, sext s s' ls /\ ls <> [] /\ (forall stk, stk <> [] -> check ls stk = Some (mark stk)) /\ call_lines ls = calls_stmt st.
-Proof. intros st s s' H He. exact (t_stmt_ok st s s' H He). Qed.
+Proof. exact C16_statement_block_proof. Qed.
 Print Assumptions C16_statement_block.
 
 (* Non-vacuity and the role of the hypothesis: an if whose body is an unused expression (which the parser
